@@ -425,7 +425,7 @@ func (jf *JSONFamily) installUnInner(f *ssa.Function, jt *jsonType) {
 			notDecl = append(notDecl, not(eq("kq", e.D.Lit(mm.Name))))
 		}
 		okk := eq(sx("if_tag", err), "0")
-		fs = append(fs, NamedFormula{Name: "ensures#consumes-declared", Props: []string{"C08", "C06"}, Formula: implies(and(okk, not(eq(m, "0"))), fmt.Sprintf("(forall ((kq Str)) (! (and (= (select %s kq) (and (select %s kq) %s)) (=> %s (= (select %s kq) (select %s kq)))) :pattern ((select %s kq)) :pattern ((select %s kq))))", has1, has0, and(notDecl...), and(notDecl...), val1, val0, has1, val1))})
+		fs = append(fs, NamedFormula{Name: "ensures#consumes-declared", Props: []string{"C08", "C06"}, Formula: implies(and(okk, not(eq(m, "0"))), fmt.Sprintf("(forall ((kq Str)) (! (and (= (select %s kq) (and (select %s kq) %s)) (=> %s (= (select %s kq) (select %s kq)))) :pattern ((select %s kq)) :pattern ((select %s kq)) :pattern ((select %s kq))))", has1, has0, and(notDecl...), and(notDecl...), val1, val0, has1, val1, sx("select", e.heapName(pre, hk, hs), m)))})
 		return fs
 	}
 	if !jt.AP && declaresAP(jt.Schema, 0) {
